@@ -1,4 +1,5 @@
 import GlueVerif.Lemmas.C04Indexed
+import GlueVerif.Lemmas.C04Cross
 /-!
 # C04 — views of masks and attribute values equal the same view of the full array
 
@@ -193,6 +194,115 @@ theorem loop1d_scalar_view_pinned_raises :
      | .error _ => true | _ => false) = true ∧
     (match Impl.mask [2] (.loop1d false fun i => i == [1]) (.arrays [1, 2] [.arr [1, 0]]) with
      | .ok a => a.shape == [1, 2] && a.data == [true, false] | _ => false) = true := by decide
+
+/-! ## selections and attributes of another, pixel-linked dataset
+
+Two datasets of one `DataCollection` whose pixel ids are `LinkSame`-linked: `links[j] = some m` = pixel axis
+`j` of the dataset being evaluated is pixel axis `m` of the other one (for a fully linked pair this list is
+`data.pixel_aligned_data[other]`, an axis permutation π; `none` = unlinked axis). -/
+
+/-- **Which axis**: the pixel id along axis `k` of the other dataset, read on this dataset, is this
+dataset's pixel attribute along `axisOf links k` — the *position* of `k` in the order, the image under the
+**inverse** permutation (`order.index(k)`) — under every view; and that is what the links mean: the value at
+`idx` is the coordinate along `k` of the matching point of the other dataset (the association list
+"other axis `links[j]` ↦ `idx[j]`").  For every (partial) order in which `k` occurs, every shape, every
+index tuple. -/
+theorem cross_pixel_axis_map (links : List (Option Nat)) (k : Nat) (h : links.contains (some k) = true) :
+    (∀ idx : List Nat, otherCoord links idx k = idx.getD (axisOf links k) 0) ∧
+    (∀ (sh : List Nat) (v : View),
+      Impl.attr sh (.pixelOf links k) v = Impl.attr sh (.pixel (axisOf links k)) v) ∧
+    (∀ (sh : List Nat) (v : View),
+      Impl.attr sh (.pixelOf links k) v = gather sh (fun idx => ((otherCoord links idx k : Nat) : Rat)) v) :=
+  ⟨fun idx => Lemmas.C04.otherCoord_eq_getD_axisOf links idx k h,
+   fun sh v => by simp only [Impl.attr, Lemmas.C04.joinSplit_eq],
+   fun sh v => Lemmas.C04.attr_gather sh (.pixelOf links k) h v⟩
+
+/-- Using the **forward** image `order[k]` instead is wrong exactly when the order is not an involution:
+it agrees with `axisOf` on the identity and on every swap of two axes of a 3-d pair, and differs on both
+cyclic orders; for the cycle d-axes (0,1,2) ↔ other axes (1,2,0) the other dataset's pixel 0 lives on axis 2,
+the forward image says axis 1, and a pixel-space ROI shortcut that keeps the forward axes whole
+(`Mutant.roiCross … axisOfForward`) returns, for the slice view `[:, :, 1:]`, a mask that is not that view of
+its own full-size mask. -/
+theorem cross_pixel_axis_forward_wrong :
+    ([[some 0, some 1, some 2], [some 1, some 0, some 2], [some 0, some 2, some 1], [some 2, some 1, some 0]].all
+      fun links => (List.range 3).all fun k => axisOf links k == axisOfForward links k) = true ∧
+    ([[some 1, some 2, some 0], [some 2, some 0, some 1]].all
+      fun links => (List.range 3).all fun k => axisOf links k != axisOfForward links k) = true ∧
+    axisOf [some 1, some 2, some 0] 0 = 2 ∧ axisOfForward [some 1, some 2, some 0] 0 = 1 ∧
+    (match Mutant.roiCross [2, 2, 2] [some 1, some 2, some 0] axisOfForward [0] (fun c => c == [1])
+        (.basic [.slice none none none, .slice none none none, .slice (some 1) none none]),
+      Spec.viewOfRes (Mutant.roiCross [2, 2, 2] [some 1, some 2, some 0] axisOfForward [0] (fun c => c == [1]) .none)
+        (.basic [.slice none none none, .slice none none none, .slice (some 1) none none]) with
+     | .ok a, .ok b => a.shape == [2, 2, 1] && b.shape == [2, 2, 1] && a.data.all id && b.data.all (!·)
+     | _, _ => false) = true := by decide
+
+/-- With the inverse image the extension is sound: for every shape, (partial) order, list `ks` of linked
+axes of the other dataset, region and view, the shortcut that keeps the axes `axisOf links k` whole gives the
+region test of the matching point of the other dataset at every gathered point. -/
+theorem cross_roi_shortcut_inverse_ok (sh : List Nat) (links : List (Option Nat)) (ks : List Nat)
+    (roi : List Nat → Bool) (v : View) (h : ks.all (fun k => links.contains (some k)) = true) :
+    Mutant.roiCross sh links axisOf ks roi v =
+      gather sh (fun idx => roi (ks.map fun k => otherCoord links idx k)) v := by
+  have h1 : Mutant.roiCross sh links axisOf ks roi v = Impl.roiPix sh (ks.map (axisOf links)) roi v := rfl
+  rw [h1, roi_pixel_shortcut_values]
+  congr 1
+  funext idx
+  rw [List.map_map, ← Lemmas.C04.map_otherCoord links idx ks h]
+  rfl
+
+/-- **Regions on the other dataset's ids** (`RoiSubsetStateNd` with one, two or three attributes, with or
+without `pretransform`, `Projected3dROI`; also range / inequality tests): pixel ids of the other dataset —
+and world / derived ids of it, which are elementwise functions of them — are not pixel ids of this dataset,
+so the general path is taken: `get_mask(state, view) = get_mask(state)[view]` for every view. -/
+theorem cross_roi_view (sh : List Nat) (as : List Attr) (p : List Rat → Bool) (v : View)
+    (hw : as.all (Spec.attrWf sh) = true) (hv : v.posStep = true) :
+    Impl.mask sh (.predN as p) v = Spec.viewOfRes (Impl.mask sh (.predN as p) .none) v :=
+  Lemmas.C04.mask_view sh (.predN as p) v (by simpa [Spec.stateWf] using hw) hv
+
+/-- **`SliceSubsetState` / `PixelSubsetState` of the other dataset** on a pixel-aligned dataset: the
+re-ordered slices (`[slices[i] for i in order]`) behave as the dataset's own; pointwise, `idx` is selected
+iff on every axis `j` the coordinate `idx[j]` lies in the slice of the other's axis `order[j]`. -/
+theorem cross_slice_view (sh : List Nat) (order : List Nat) (sls : List ViewItem) (v : View)
+    (hl : order.length = sh.length) (hp : sls.all Spec.posSliceEntry = true) (hv : v.posStep = true) :
+    Impl.mask sh (.sliceOf order sls) v = Spec.viewOfRes (Impl.mask sh (.sliceOf order sls) .none) v ∧
+    Impl.mask sh (.sliceOf order sls) v = gather sh (Spec.sliceHolds sh (reorderSlices order sls)) v :=
+  have hw : Spec.stateWf sh (.sliceOf order sls) = true := by simp [Spec.stateWf, hl, hp]
+  ⟨Lemmas.C04.mask_view sh _ v hw hv, Lemmas.C04.mask_gather sh v hv _ hw⟩
+
+/-- … and on a pair that shares a grid — `order` a permutation of the `n` axes, axis `j` of this dataset as
+long as axis `order[j]` of the other — that is membership of the **matching point of the other dataset**
+(`otherPoint`: coordinate `idx[j]` on its axis `order[j]`) in the state's own slices on the other's shape:
+re-ordering with the inverse instead (`slices[order.index(j)]`) would select other points as soon as the
+order is not an involution. -/
+theorem cross_slice_point (n : Nat) (shd she : List Nat) (order : List Nat) (sls : List ViewItem)
+    (idx : List Nat) (hperm : order.Perm (List.range n)) (hd : shd.length = n) (he : she.length = n)
+    (hs : sls.length = n) (hi : idx.length = n)
+    (hshape : ∀ j, j < n → shd.getD j 0 = she.getD (order.getD j 0) 0) :
+    Spec.holds shd (.sliceOf order sls) idx =
+      Spec.sliceHolds she sls (otherPoint (order.map some) n idx) :=
+  Lemmas.C04.sliceHolds_reorder n shd she order sls idx hperm hd he hs hi hshape
+
+example : ([1, 2, 0] : List Nat).Perm (List.range 3) := by decide
+
+example : Spec.holds [2, 3, 4] (.sliceOf [1, 2, 0] [.slice (some 1) none none, .slice none none none, .slice (some 2) none none])
+      [1, 2, 3] = true ∧
+    otherPoint [some 1, some 2, some 0] 3 [1, 2, 3] = [3, 1, 2] := by decide
+
+/-- **`MaskSubsetState` with the other dataset's pixel ids**: each gathered point gets the element of the
+mask at the matching point of the other dataset. -/
+theorem cross_mask_view (sh : List Nat) (hne : sh.isEmpty = false) (links : List (Option Nat))
+    (ks msh : List Nat) (m : List Bool) (v : View)
+    (h : ks.all (fun k => links.contains (some k)) = true) (hv : v.posStep = true) :
+    Impl.mask sh (.maskOf links ks msh m) v = Spec.viewOfRes (Impl.mask sh (.maskOf links ks msh m) .none) v :=
+  Lemmas.C04.mask_view sh _ v (by simp only [Spec.stateWf, h, hne]; rfl) hv
+
+example : Spec.stateWf [2, 3, 4] (.and (.predN [.pixelOf [some 1, some 2, some 0] 0, .map (fun x => 2 * x)
+      (.pixelOf [some 1, none, some 0] 1)] fun c => c == [1, 2])
+    (.xor (.sliceOf [1, 2, 0] [.slice (some 1) none none, .slice none none (some 2), .slice none none none])
+      (.maskOf [some 1, some 2, some 0] [0, 1, 2] [4, 2, 3] []))) = true := by decide
+
+example : Impl.attr [2, 3, 4] (.pixelOf [some 1, some 2, some 0] 0) (.basic [.int 1, .int 2]) =
+    .ok ⟨[4], [0, 1, 2, 3]⟩ := by rfl
 
 /-! ## `IndexedData` -/
 
